@@ -136,6 +136,10 @@ def _report(ctx, fails: List[dict], clause_prefix: str, confirm=None) -> None:
     for f in fails:
         by.setdefault(f["clause"], []).append(f)
     for clause, fs in sorted(by.items()):
+        if clause == "wire-format":
+            # stricter than the property (a consistently renamed key still round-trips): reported, never a violation
+            ctx.note(f"C19 wire-format drift (not a violation): {fs[0]['what'][:200]}")
+            continue
         fs.sort(key=lambda f: (f["size"], f["signature"]))
         seen = set()
         j = 0
@@ -416,8 +420,8 @@ def run(ctx, tier: str, seed: int) -> None:
     ctx.trust("A-MARSHMALLOW (marshmallow interprets the declarative schemas as documented)", "A-LARK-TREE (Tree/Token equality)")
     ctx.explanation = ("bounded: JSON round trips over small field domains of the six model classes, over objects produced by "
                        "real evaluation / extraction / generation, and over trees of the real parsers and resolver (≤ 4 leaves)")
-    ctx.note("C19: clause 'wire-format' (dumps(x) has the published key names of /repo/json_schemas) goes beyond the literal "
-             "statement; it is what makes a consistently renamed data_key visible")
+    ctx.assume("the 'wire-format' comparison with /repo/json_schemas goes beyond the property statement: a drift is "
+               "printed as a NOTE and never reported as a violation")
 
     # ---------------------------------------------------------------- (1)
     t0 = time.time()
